@@ -294,7 +294,7 @@ fn chunk_positions(spec: &FileSpec, kind: &str) -> Vec<(usize, usize)> {
     v
 }
 
-pub const MODEL_OPS: [&str; 59] = [
+pub const MODEL_OPS: [&str; 60] = [
     "cel_payload_short",
     "cel_payload_long",
     "cel_decl_bigger",
@@ -354,6 +354,7 @@ pub const MODEL_OPS: [&str; 59] = [
     "declared_frames_tall_stack",
     "tilemap_extent_i32",
     "tileset_strip_height_u32",
+    "palette_colliding_keys",
 ];
 
 fn fmt_of(spec: &FileSpec) -> Fmt {
@@ -756,6 +757,31 @@ pub fn model_input(base: &Base, op: usize, rng: &mut Rng, deep_groups: usize) ->
                 at += 1;
             }
             label = format!("{} user-data records after a tags({}) chunk", n + 1, n);
+        }
+        "palette_colliding_keys" => {
+            // well-formed: an indexed sprite whose palette arrives as thousands of one-entry chunks at indices that are
+            // equal modulo a large power of two (index 1 last), and one large cel whose every pixel is index 1 -
+            // a table keyed by the raw index degenerates into one long probe chain per pixel
+            let n = *rng.pick(&[4000u32, 6000]);
+            let side = 8192u16;
+            let mut sp = Sprite::blank(4, 4, Fmt::Indexed, 1);
+            sp.transparent_index = 0;
+            let mut pal = std::collections::BTreeMap::new();
+            pal.insert(0u32, PalEntryM { rgba: [0, 0, 0, 0], name: None });
+            pal.insert(1u32, PalEntryM { rgba: [200, 10, 10, 255], name: None });
+            sp.palette = Some(pal);
+            sp.layers.push(LayerM::image("l"));
+            sp.cels.insert((0, 0), CelM { x: 0, y: 0, opacity: 255, content: CelContentM::Image { w: side, h: side, pixels: vec![1u8; side as usize * side as usize] }, ud: None });
+            let mut chunks: Vec<ChunkSpec> = vec![ChunkSpec::Palette { total: 2, first: 0, entries: vec![PalChunkEntry { flags_extra: 0, rgba: [0, 0, 0, 0], name: None }], reserved: [0; 8] }];
+            for k in (0..n).rev() {
+                let idx = 1 + k * (1 << 17);
+                chunks.push(ChunkSpec::Palette { total: 2, first: idx, entries: vec![PalChunkEntry { flags_extra: 0, rgba: if k == 0 { [200, 10, 10, 255] } else { [k as u8, (k >> 8) as u8, 7, 255] }, name: None }], reserved: [0; 8] });
+            }
+            let mut r = Rng::new(5);
+            let mut v = Variation::none();
+            v.default_storage = Storage::Zlib(6);
+            spec = crate::program::compile_with(&sp, &mut r, &v, &crate::program::PaletteProgram::Chunks(chunks));
+            label = format!("palette of {} one-entry chunks at indices 1 + k * 2^17 (index 1 last) and a {}x{} cel of index 1", n + 1, side, side);
         }
         "tileset_strip_height_u32" => {
             // self-consistent: 65538 tiles of 1x65535 indexed pixels - all tiles stacked are 2^32 + 65534 pixel rows,
